@@ -262,7 +262,7 @@ def rule_same_value(ctx: Ctx, rule: str = "C01.3") -> None:
               "the update is refused the loan reports interest nobody paid", detail={"path": C.fmt_path(pth) if pth else []})
     if iname:
         muts = [s for s in A.stores(rp) if A.dotted(s.target) == iname and s.kind in ("augassign", "mutcall", "subscript")
-                and s.stmt.lineno > ups2[0].lineno]
+                and A.seq(s.stmt) > A.seq(ups2[0])]
         ctx.check(not muts, rule, "interest is not modified between debit and record", rp, muts[0].stmt if muts else paid[0], "unchanged",
                   "interest changed after being debited")
     # Order.add_fill / Loan.add_paid_interest record what they are given
